@@ -553,3 +553,49 @@ theorem Particles.liveLeaves_toAll : (ps : Particles) → Rx.liveLeaves ps.toAll
     simp [Particles.toAll, Rx.liveLeaves, Particles.liveLeaves, Particle.liveLeaves_toRx p, Particles.liveLeaves_toAll ps]
 end
 end XsVerif.CM
+
+/-! ### renaming symbols -/
+
+namespace XsVerif.Rx
+variable {L σ : Type} (m : L → σ → Bool)
+
+theorem interleave_map (f : σ → σ) {u v w : List σ} (h : Interleave u v w) :
+    Interleave (u.map f) (v.map f) (w.map f) := by
+  induction h with
+  | nil => exact .nil
+  | left c _ ih => exact .left (f c) ih
+  | right c _ ih => exact .right (f c) ih
+
+/-- renaming the symbols of a word by a function that no leaf of the expression can tell from the
+    identity (on the symbols of that word) keeps the word in the language -/
+theorem lang_map (f : σ → σ) (r : Rx L) : ∀ w, (∀ l ∈ leaves r, ∀ c ∈ w, m l (f c) = m l c) →
+    Lang m r w → Lang m r (w.map f) := by
+  induction r with
+  | empty => intro w _ h; exact absurd h (by simp [Lang])
+  | eps => intro w _ h; simp only [Lang] at h ⊢; subst h; rfl
+  | sym a =>
+    rintro w hf ⟨c, rfl, hm⟩
+    exact ⟨f c, rfl, by rw [hf a (by simp [leaves]) c (by simp)]; exact hm⟩
+  | cat r s ihr ihs =>
+    rintro w hf ⟨u, v, rfl, h1, h2⟩
+    refine ⟨u.map f, v.map f, by simp, ihr u ?_ h1, ihs v ?_ h2⟩
+    · intro l hl c hc; exact hf l (by simp [leaves, hl]) c (by simp [hc])
+    · intro l hl c hc; exact hf l (by simp [leaves, hl]) c (by simp [hc])
+  | alt r s ihr ihs =>
+    rintro w hf (h | h)
+    · exact .inl (ihr w (fun l hl c hc => hf l (by simp [leaves, hl]) c hc) h)
+    · exact .inr (ihs w (fun l hl c hc => hf l (by simp [leaves, hl]) c hc) h)
+  | shuffle r s ihr ihs =>
+    rintro w hf ⟨u, v, hi, h1, h2⟩
+    refine ⟨u.map f, v.map f, interleave_map f hi, ihr u ?_ h1, ihs v ?_ h2⟩
+    · intro l hl c hc; exact hf l (by simp [leaves, hl]) c ((interleave_mem hi c).mpr (.inl hc))
+    · intro l hl c hc; exact hf l (by simp [leaves, hl]) c ((interleave_mem hi c).mpr (.inr hc))
+  | rep r lo hi ih =>
+    rintro w hf ⟨ws, rfl, hlo, hhi, hall⟩
+    refine ⟨ws.map (List.map f), by simp [List.map_flatten], by simpa using hlo, by simpa using hhi, ?_⟩
+    intro x hx
+    obtain ⟨y, hy, rfl⟩ := List.mem_map.mp hx
+    refine ih y ?_ (hall y hy)
+    intro l hl c hc
+    exact hf l (by simpa [leaves] using hl) c (List.mem_flatten.mpr ⟨y, hy, hc⟩)
+end XsVerif.Rx
